@@ -622,8 +622,8 @@ Proof.
   - left. cbn [SegE]. split; [lia|]. split; [right|]; reflexivity.
 Qed.
 
-Lemma abs_Rep : forall s es, Rep s es -> abs s = map (fun e => slice (buf s) (fst e) (snd e)) es.
-Proof. intros s es H. unfold abs. now rewrite (Rep_extents _ _ H). Qed.
+Lemma abs_Rep : forall s es, Rep s es -> mrb_abs s = map (fun e => slice (buf s) (fst e) (snd e)) es.
+Proof. intros s es H. unfold mrb_abs. now rewrite (Rep_extents _ _ H). Qed.
 
 Lemma alloc_usable : forall s sz, usable (size s) sz -> alloc s sz = alloc_body s sz /\ alloc_fixed s sz = alloc_body s sz.
 Proof.
@@ -645,7 +645,7 @@ Lemma alloc_fill_spec : forall s es sz s' p d, Rep s es -> count s = nlen es -> 
   alloc_body s sz = Ok (s', Some p) -> len d = sz ->
   (Rep s' (es ++ [(p, sz)]) /\ count s' = nlen (es ++ [(p, sz)])) /\
   (exists s'', fill s' p d = Ok s'' /\ Rep s'' (es ++ [(p, sz)]) /\ count s'' = nlen (es ++ [(p, sz)]) /\
-               size s'' = size s /\ abs s'' = abs s ++ [d]) /\
+               size s'' = size s /\ mrb_abs s'' = mrb_abs s ++ [d]) /\
   size s' = size s /\ 4 <= p /\ p + sz <= size s /\
   Forall (fun x => p + sz + 4 <= fst x \/ fst x + snd x + 4 <= p) es.
 Proof.
@@ -686,7 +686,7 @@ Qed.
 Lemma alloc_body_refines : forall s sz s' p d,
   MInv s -> usable (size s) sz -> alloc_body s sz = Ok (s', Some p) -> len d = sz ->
   MInv s' /\ size s' = size s /\
-  (exists s'', fill s' p d = Ok s'' /\ MInv s'' /\ size s'' = size s /\ abs s'' = abs s ++ [d]) /\
+  (exists s'', fill s' p d = Ok s'' /\ MInv s'' /\ size s'' = size s /\ mrb_abs s'' = mrb_abs s ++ [d]) /\
   4 <= p /\ p + sz <= size s /\ disjoint_from_live s p sz.
 Proof.
   intros s sz s' p d (es & HR & HC) HU EA Hd.
@@ -700,14 +700,14 @@ Qed.
 Lemma alloc_refines_guarded : forall s sz s' p d,
   MInv s -> usable (size s) sz -> alloc s sz = Ok (s', Some p) -> len d = sz ->
   MInv s' /\ size s' = size s /\
-  (exists s'', fill s' p d = Ok s'' /\ MInv s'' /\ size s'' = size s /\ abs s'' = abs s ++ [d]) /\
+  (exists s'', fill s' p d = Ok s'' /\ MInv s'' /\ size s'' = size s /\ mrb_abs s'' = mrb_abs s ++ [d]) /\
   4 <= p /\ p + sz <= size s /\ disjoint_from_live s p sz.
 Proof. intros s sz s' p d HI HU EA. rewrite (proj1 (alloc_usable s sz HU)) in EA. now apply alloc_body_refines. Qed.
 
 Lemma alloc_fixed_refines : forall s sz s' p d,
   MInv s -> alloc_fixed s sz = Ok (s', Some p) -> len d = sz ->
   MInv s' /\ size s' = size s /\
-  (exists s'', fill s' p d = Ok s'' /\ MInv s'' /\ size s'' = size s /\ abs s'' = abs s ++ [d]) /\
+  (exists s'', fill s' p d = Ok s'' /\ MInv s'' /\ size s'' = size s /\ mrb_abs s'' = mrb_abs s ++ [d]) /\
   4 <= p /\ p + sz <= size s /\ disjoint_from_live s p sz.
 Proof.
   intros s sz s' p d HI EA.
@@ -718,7 +718,7 @@ Proof.
 Qed.
 
 Lemma alloc_body_fail : forall s sz s', MInv s -> usable (size s) sz -> alloc_body s sz = Ok (s', None) ->
-  s' = s /\ ~ fits s sz /\ abs s <> [].
+  s' = s /\ ~ fits s sz /\ mrb_abs s <> [].
 Proof.
   intros s sz s' (es & HR & HC) HU EA.
   destruct (alloc_body_spec s es sz HR HU) as [(E & NF & NE) | (s1 & p1 & E & _)]; rewrite E in EA; [|discriminate].
@@ -754,7 +754,7 @@ Qed.
    non-empty and neither free run can take 4 + sz bytes plus 6 bytes of slack *)
 Lemma alloc_fail_no_room : forall s sz s', MInv s -> usable (size s) sz ->
   (alloc s sz = Ok (s', None) \/ alloc_fixed s sz = Ok (s', None)) ->
-  abs s <> [] /\ Forall (fun run => run < 4 + sz + 6) (free_runs s).
+  mrb_abs s <> [] /\ Forall (fun run => run < 4 + sz + 6) (free_runs s).
 Proof.
   intros s sz s' HI HU EA.
   rewrite (proj1 (alloc_usable s sz HU)), (proj2 (alloc_usable s sz HU)) in EA.
@@ -769,7 +769,7 @@ Proof.
   - apply Forall_cons; [lia|apply Forall_nil].
 Qed.
 
-Lemma empty_then_any_body : forall s sz, MInv s -> abs s = [] -> usable (size s) sz ->
+Lemma empty_then_any_body : forall s sz, MInv s -> mrb_abs s = [] -> usable (size s) sz ->
   exists s' p, alloc_body s sz = Ok (s', Some p).
 Proof.
   intros s sz (es & HR & HC) HA HU.
@@ -777,7 +777,7 @@ Proof.
   exfalso. rewrite (abs_Rep _ _ HR) in HA. destruct es; [congruence|discriminate].
 Qed.
 
-Lemma empty_then_any : forall s sz, MInv s -> abs s = [] -> usable (size s) sz ->
+Lemma empty_then_any : forall s sz, MInv s -> mrb_abs s = [] -> usable (size s) sz ->
   (exists s' p, alloc s sz = Ok (s', Some p)) /\ (exists s' p, alloc_fixed s sz = Ok (s', Some p)).
 Proof.
   intros s sz HI HA HU. rewrite (proj1 (alloc_usable s sz HU)), (proj2 (alloc_usable s sz HU)).
@@ -788,10 +788,10 @@ Lemma read_msg_ok : forall s p z, p + z <= size s -> read_msg s p z = Ok (slice 
 Proof. intros. unfold read_msg. assert (p + z <=? size s = true) as -> by lia. reflexivity. Qed.
 
 Lemma peek_refines : forall s, MInv s ->
-  match abs s with
+  match mrb_abs s with
   | [] => peek s = Ok (s, None)
   | m :: _ => exists s' p, peek s = Ok (s', Some (p, len m)) /\ read_msg s' p (len m) = Ok m /\
-                           MInv s' /\ size s' = size s /\ abs s' = abs s
+                           MInv s' /\ size s' = size s /\ mrb_abs s' = mrb_abs s
   end.
 Proof.
   intros s (es & HR & HC). rewrite (abs_Rep _ _ HR). pose proof (peek_spec s es HR) as HP.
@@ -805,10 +805,10 @@ Proof.
 Qed.
 
 Lemma pop_refines : forall s, MInv s ->
-  match abs s with
+  match mrb_abs s with
   | [] => pop s = Ok (s, None)
   | m :: q => exists s' p, pop s = Ok (s', Some (p, len m)) /\ read_msg s' p (len m) = Ok m /\
-                           MInv s' /\ size s' = size s /\ abs s' = q
+                           MInv s' /\ size s' = size s /\ mrb_abs s' = q
   end.
 Proof.
   intros s (es & HR & HC). rewrite (abs_Rep _ _ HR). pose proof (pop_spec s es HR HC) as HP.
@@ -834,7 +834,7 @@ Proof. intros. destruct (list_eq_dec N.eq_dec m m); congruence. Qed.
 
 Lemma step_ok : forall al s o, MInv s -> op_al_ok al (size s) o ->
   exists s' r, step al s o = Ok (s', r) /\ MInv s' /\ size s' = size s /\
-               forall ops outs, fifo (abs s) (o :: ops) (r :: outs) = fifo (abs s') ops outs.
+               forall ops outs, fifo (mrb_abs s) (o :: ops) (r :: outs) = fifo (mrb_abs s') ops outs.
 Proof.
   intros al s o HI HO. destruct o as [d| |]; cbn [step op_al_ok] in *.
   - destruct (HO s eq_refl) as [(HU & E) | E]; rewrite E; cbn [bind].
@@ -848,12 +848,12 @@ Proof.
         destruct (alloc_body_spec s es (len d) HR HU) as [(E' & _) | (s1 & p1 & E' & _)]; congruence.
     + exists s, (RAlloc None). repeat split; auto.
   - pose proof (peek_refines s HI) as HP. unfold deliver.
-    destruct (abs s) as [|m q] eqn:EA.
+    destruct (mrb_abs s) as [|m q] eqn:EA.
     + rewrite HP. cbn [bind]. exists s, (RMsg None). repeat split; auto. intros. cbn [fifo]. now rewrite EA.
     + destruct HP as (s1 & p & EP & ER & I1 & S1 & A1). rewrite EP. cbn [bind]. rewrite ER. cbn [bind].
       exists s1, (RMsg (Some (p, m))). repeat split; auto. intros. cbn [fifo]. rewrite fifo_dec_refl. now rewrite A1.
   - pose proof (pop_refines s HI) as HP. unfold deliver.
-    destruct (abs s) as [|m q] eqn:EA.
+    destruct (mrb_abs s) as [|m q] eqn:EA.
     + rewrite HP. cbn [bind]. exists s, (RMsg None). repeat split; auto. intros. cbn [fifo]. now rewrite EA.
     + destruct HP as (s1 & p & EP & ER & I1 & S1 & A1). rewrite EP. cbn [bind]. rewrite ER. cbn [bind].
       exists s1, (RMsg (Some (p, m))). repeat split; auto. intros. cbn [fifo]. rewrite fifo_dec_refl. now rewrite A1.
@@ -861,7 +861,7 @@ Qed.
 
 Lemma run_ok : forall al ops s, MInv s -> Forall (op_al_ok al (size s)) ops ->
   exists s' outs, run al s ops = Ok (s', outs) /\ MInv s' /\ size s' = size s /\
-                  fifo (abs s) ops outs = Some (abs s').
+                  fifo (mrb_abs s) ops outs = Some (mrb_abs s').
 Proof.
   intros al ops. induction ops as [|o r IH]; intros s HI HF.
   - exists s, []. repeat split; auto.
@@ -886,7 +886,7 @@ Proof.
   - right. unfold alloc. assert (size s <? sz = true) as -> by lia. reflexivity.
 Qed.
 
-Lemma abs_init : forall B, B <= 2147483648 -> abs (init B) = [].
+Lemma abs_init : forall B, B <= 2147483648 -> mrb_abs (init B) = [].
 Proof.
   intros B HB. destruct (init_MInv B HB) as (es & HR & HC).
   rewrite (abs_Rep _ _ HR). cbn [init count] in HC. destruct es; [reflexivity|].
@@ -897,7 +897,7 @@ Qed.
 
 Lemma reachable_inv_guarded : forall B ops, B <= 2147483648 -> Forall (op_guard B) ops ->
   exists s outs, run alloc (init B) ops = Ok (s, outs) /\ MInv s /\ size s = B /\
-                 fifo [] ops outs = Some (abs s).
+                 fifo [] ops outs = Some (mrb_abs s).
 Proof.
   intros B ops HB HG.
   assert (HF : Forall (op_al_ok alloc (size (init B))) ops).
@@ -909,7 +909,7 @@ Qed.
 
 Lemma reachable_inv_fixed : forall B ops, B <= 2147483648 ->
   exists s outs, run alloc_fixed (init B) ops = Ok (s, outs) /\ MInv s /\ size s = B /\
-                 fifo [] ops outs = Some (abs s).
+                 fifo [] ops outs = Some (mrb_abs s).
 Proof.
   intros B ops HB.
   assert (HF : Forall (op_al_ok alloc_fixed (size (init B))) ops).
@@ -988,7 +988,7 @@ Qed.
 
 
 Lemma ex_state : exists s, MInv s /\ size s = 48 /\ head s = 6 /\ tail s = 14 /\
-  abs s = [repeat 2 10; repeat 3 10; repeat 4 2] /\
+  mrb_abs s = [repeat 2 10; repeat 3 10; repeat 4 2] /\
   (exists s', alloc s 1 = Ok (s', Some 10)) /\ (exists s', alloc_fixed s 1 = Ok (s', Some 10)) /\
   alloc s 3 = Ok (s, None) /\ alloc_fixed s 3 = Ok (s, None) /\ usable (size s) 3.
 Proof.
@@ -1001,7 +1001,7 @@ Proof.
   split; [vm_compute; reflexivity|]. split; [vm_compute; reflexivity|]. unfold usable. lia.
 Qed.
 
-Lemma ex_empty : exists s, MInv s /\ abs s = [] /\ head s = 42 /\ usable (size s) 40.
+Lemma ex_empty : exists s, MInv s /\ mrb_abs s = [] /\ head s = 42 /\ usable (size s) 40.
 Proof.
   destruct (reachable_inv_fixed 48 [OAlloc (repeat 1 38); OPop]) as (s & outs & ER & I & S & F); [lia|].
   vm_compute in ER. injection ER as <- <-.
